@@ -70,7 +70,7 @@ def eval_case(case, rng, thorough):
             if rng.random() < 0.35:
                 flows.append(gen.random_quic_flow(rng, i, napp=rng.choice([2, 5, 8])))
             else:
-                flows.append(gen.random_tls_flow(rng, i, nmax=8, segkinds=("mss", "random", "whole", "records", "byte2"), min_records=2, perturb=rng.random() < 0.2,
+                flows.append(gen.random_tls_flow(rng, i, nmax=8, segkinds=("mss", "random", "whole", "records", "byte2", "tail1"), min_records=2, perturb=rng.random() < 0.2,
                                                  duplex=rng.random() < 0.3, repack=rng.random() < 0.3))
         items = scene.merge(flows, rng, rng.choice(["random", "bursty", "concat"]))
         scene.stamp(items, rng)
